@@ -22,11 +22,13 @@ func runC01(r *engine.Run) {
 	r.Rule("DOM-size", "in Insert, the write lock, insert, insertLeaf and setRoot are reached only when len(marshalled value) > MPTMaxAllowableNodeSize tested false and len == 0 tested false; a nil value and an empty encoding route to Delete(path)")
 	r.Rule("DEP-absent", "deleting at an exhausted path on a branch returns ErrValueNotPresent under a test of the branch's HasValue(); deleteAtNode's leaf arm returns ErrValueNotPresent when the path comparison fails; delete of a nil key returns ErrValueNotPresent")
 	r.Rule("DOM-ext-nonempty", "every construction of an extension node (NewExtensionNode, insertExtension, store to ExtensionNode.Path in the trie operations) receives a path established non-empty: a literal/append/concat with at least one element, a prefix under a dominating len != 0 test, a suffix X[k:] under a dominating len(X) != k test, an existing extension's path, or a parameter that is non-empty at every call site; an empty-path extension makes its subtree unreachable for lookups")
+	r.Rule("FRESH-node", "see C03: no trie operation writes in place to node memory shared with the store, the node cache, a pending change or a caller (aliasing changes what other lookups return)")
 	r.NotDec = append(r.NotDec, "that lookups return the last stored value for every history (path arithmetic, slicing, which child is lifted)", "hex validation of Insert/Delete paths (outside the property's quantifier)")
 	exhU(r)
 	domSize(r)
 	depAbsent(r)
 	domExtNonEmpty(r, "DOM-ext-nonempty")
+	freshNode(r, "C01")
 }
 
 var nodeKinds = []string{"ExtensionNode", "FullNode", "LeafNode"}
@@ -350,6 +352,80 @@ func depAbsent(r *engine.Run) {
 			}
 		}
 		r.Check(good, rule, fn(f)+"|leaf path mismatch", r.P.Pos(f.Pos()), "ErrValueNotPresent returned when the leaf's path differs", "deleting under a leaf with a different path does not report ErrValueNotPresent")
+	}
+	// 2b. the leaf arm of delete-at-exhausted-path is reached only for the leaf that is the entry:
+	// every call of deleteAfterPathTraversal is made either after the leaf's path compared equal to the
+	// remaining path, or on paths where the node is not a leaf with path elements left
+	if dap := r.Fn(rule, pkgUtil, "MerklePatriciaTrie", "deleteAfterPathTraversal"); dap != nil {
+		for _, e := range r.P.RepoCG().In[dap] {
+			c, ok := e.Site.(*ssa.Call)
+			if !ok {
+				continue
+			}
+			f := e.Caller
+			nodeArg := c.Call.Args[1]
+			paths, okp := engine.PathFacts(f, c.Block(), 4096)
+			good := okp && len(paths) > 0
+			detail := ""
+			// candidate guards
+			var eqCalls []*ssa.Call
+			engine.Instrs(f, func(in ssa.Instruction) {
+				if bc, ok := in.(*ssa.Call); ok && extCalleeIs(bc, "bytes", "", "Equal") {
+					a, b := stripCT(bc.Call.Args[0]), stripCT(bc.Call.Args[1])
+					if isFieldLoad("Path")(a) || isFieldLoad("Path")(b) {
+						eqCalls = append(eqCalls, bc)
+					}
+				}
+			})
+			var leafOK, lenZero []string
+			engine.Instrs(f, func(in ssa.Instruction) {
+				if ta, ok := in.(*ssa.TypeAssert); ok && ta.CommaOk && ta.X == nodeArg {
+					if nm := namedOf(ta.AssertedType); nm != nil && nm.Obj().Name() == "LeafNode" {
+						for _, ref := range engine.Referrers(ta) {
+							if ex, ok := ref.(*ssa.Extract); ok {
+								if ex.Index == 1 {
+									leafOK = append(leafOK, engine.ValKey(ex))
+								} else {
+									// len(leaf.Path) == 0 atoms
+									engine.Instrs(f, func(i2 ssa.Instruction) {
+										if ld, ok := i2.(*ssa.UnOp); ok {
+											if fa, ok := ld.X.(*ssa.FieldAddr); ok && fa.X == ssa.Value(ex) && engine.FieldOf(fa).Name() == "Path" {
+												lenZero = append(lenZero, "(c:0 == len("+engine.ValKey(ld)+"))", "(len("+engine.ValKey(ld)+") == c:0)")
+											}
+										}
+									})
+								}
+							}
+						}
+					}
+				}
+			})
+			for _, p := range paths {
+				okPath := false
+				for _, ec := range eqCalls {
+					if v, had := p[engine.ValKey(ec)]; had && v {
+						okPath = true
+					}
+				}
+				for _, k := range leafOK {
+					if v, had := p[k]; had && !v {
+						okPath = true
+					}
+				}
+				for _, k := range lenZero {
+					if v, had := p[k]; had && v {
+						okPath = true
+					}
+				}
+				if !okPath {
+					good = false
+					detail = "a path reaches the call without comparing the leaf's remaining path"
+				}
+			}
+			r.CallSites++
+			r.Check(good, rule, fn(f)+"|exhausted path at a leaf", r.P.Pos(c.Pos()), "delete-at-exhausted-path is reached only when the node is not a leaf with path elements left, or its path equals the remaining path",
+				"the path to delete ends at a leaf whose own remaining path is never compared: deleting an absent shorter path removes a longer entry ("+detail+")")
+		}
 	}
 	// 3. nil key
 	if f := r.Fn(rule, pkgUtil, "MerklePatriciaTrie", "delete"); f != nil {
